@@ -1,6 +1,7 @@
 // Generated response specifications (status, typed headers, cookies, fixed body or a sequence
 // of stream operations) and their application to a Http::ResponseWriter.  Shared by C05 and C02.
 #pragma once
+#include <optional>
 #include "harness.h"
 
 #include <pistache/cookie.h>
@@ -350,9 +351,32 @@ namespace verif
                 }
                 else
                 {
-                    auto stream = r.stream_size ? w.stream(r.code, r.stream_size) : w.stream(r.code);
+                    // A handler may hand its stream on before it has finished with it (by-value parameter,
+                    // lambda capture, a container of open streams): in one third of the streamed cases the
+                    // stream is move-constructed into another object half-way through its operations, in
+                    // another third it is move-assigned (through an engaged optional).  Derived from the
+                    // number of operations, no choice consumed.  Whatever is buffered and not yet flushed -
+                    // status line, headers, cookies, earlier chunks - must survive the move.
+                    std::optional<ResponseStream> slot;
+                    slot.emplace(r.stream_size ? w.stream(r.code, r.stream_size) : w.stream(r.code));
+                    size_t move_at   = r.ops.size() / 2;
+                    unsigned move_how = unsigned(r.ops.size() % 3); // 0: never, 1: move construction, 2: move assignment
+                    size_t idx = 0;
                     for (auto& op : r.ops)
                     {
+                        if (idx++ == move_at && move_how)
+                        {
+                            ResponseStream moved(std::move(*slot));
+                            if (move_how == 1)
+                                slot.emplace(std::move(moved));
+                            else
+                            {
+                                slot.emplace(std::move(moved));  // an engaged optional ...
+                                ResponseStream again(std::move(*slot));
+                                *slot = std::move(again);        // ... whose object is move-ASSIGNED
+                            }
+                        }
+                        ResponseStream& stream = *slot;
                         switch (op.kind)
                         {
                         case StreamOp::Write:
@@ -372,7 +396,7 @@ namespace verif
                             break;
                         }
                     }
-                    stream.ends();
+                    slot->ends();
                     on_settled(true, -1);
                 }
             }
